@@ -306,6 +306,8 @@ pub fn c20_gen(rng: &mut Rng, n: usize) -> Vec<Case> {
                 "(identifier) @id {\n  node @id.zzn\n  attr (@id.zzn) k = 1\n}\n\n(call function: (identifier) @fn) {\n  attr (@fn.zzn) k = 2\n}\n",
                 "(module) @m {\n  node @m.zzn\n}\n\n(identifier) @id {\n  node y\n  edge @id.zzn -> y\n}\n",
                 "(assignment left: (identifier) @l) @a {\n  let @l.zzv = @a\n}\n\n(identifier) @id {\n  let @id.zzv = 3\n}\n",
+                "(module) @_mz {\n  node za\n  node zb\n  node zc\n  edge za -> zb\n  edge za -> zc\n  attr (za -> zb) w = 1\n  attr (za -> zc) w = 2\n  attr (za -> zb) w = 3\n}\n",
+                "(module) @_mz {\n  node za\n  node zb\n  node zc\n  edge za -> zc\n  edge za -> zb\n  attr (za -> zc) w = 1\n  attr (za -> zb) w = 1\n  attr (za -> zb) v = 1\n  attr (za -> zc) w = 4\n}\n",
             ]);
             let pos = rng.below(p.stanzas.len() + 1);
             p.stanzas.insert(pos, x.to_string());
@@ -432,6 +434,17 @@ pub fn churn_stanza(rng: &mut Rng, nglobals: usize) -> String {
     let src = rng.below(names.len());          // most operations share one source node
     for _ in 0..nops {
         let a = if rng.chance(75) { src } else { rng.below(names.len()) };
+        if rng.chance(14) {
+            // attribute first, edge afterwards: fine under lazy evaluation (edges are created before attributes are set),
+            // UndefinedEdge under strict evaluation
+            // both end points pre-existing nodes (plain values, not thunks) when there are any
+            let (a, b) = if nglobals >= 2 && rng.chance(60) { (rng.below(nglobals), rng.below(nglobals)) } else { (a, rng.below(names.len())) };
+            if !edges.contains(&(a, b)) {
+                body.push_str(&format!("  attr ({} -> {}) late = \"late\"\n  edge {} -> {}\n", names[a], names[b], names[a], names[b]));
+                edges.push((a, b));
+                continue;
+            }
+        }
         if edges.is_empty() || rng.chance(45) {
             let b = rng.below(names.len());
             body.push_str(&format!("  edge {} -> {}\n", names[a], names[b]));
@@ -767,14 +780,111 @@ pub fn c03_case(inp: &ExecInput) -> Option<Case> {
     let tags = vec![format!("stanzas:{}", file.stanzas.len()), format!("shared_names:{}", shared), format!("has_error_nodes:{}", tree.root_node().has_error())];
     both_case("C03", inp, code, tags, file.stanzas.len() >= 2 && shared, json!({"direct": what}))
 }
+/// Large sibling lists: patterns pairing two NON-adjacent siblings keep one match pending per first sibling until the
+/// parent is left.  Three such stanzas over three nested sibling lists (module statements, a function body inside, a
+/// call's arguments inside that) have more than a thousand matches of the MERGED query in progress at once, while each
+/// stanza's own query has a few hundred.  Too large for the model to be evaluated inside Coq (and tree-sitter needs
+/// seconds per run): these cases are decided by direct comparison alone -- raw stanza-query matches against the public
+/// visitor in lazy mode (code 91) and against the blocks run by strict and lazy execution (code 92).
+const C03_BIG_POOL: &[(&str, &[&str])] = &[
+    ("(module (expression_statement) @a (pass_statement) @b)", &["a", "b"]),
+    ("(block (_) @a (pass_statement) @b)", &["a", "b"]),
+    ("(argument_list (identifier) @a (integer) @b)", &["a", "b"]),
+];
+const C03_BIG_SMALL: &[(&str, &[&str])] = &[
+    ("(function_definition name: (identifier) @name parameters: (parameters (identifier)* @args)) @f", &["name", "args", "f"]),
+    ("(call function: (identifier) @x arguments: (argument_list (_)* @args)) @c", &["x", "args", "c"]),
+    ("[(integer) (string)] @x", &["x"]),
+    ("(module (_)+ @x) @m", &["x", "m"]),
+    ("((identifier) @a (#eq? @a \"g\"))", &["a"]),
+];
+pub fn c03_big_input(rng: &mut Rng) -> ExecInput {
+    let probe = |i: usize, q: &str, caps: &[&str]| -> String {
+        let mut body = format!("  node n\n  attr (n) stanza = {}\n", i);
+        for c in caps.iter() { body.push_str(&format!("  attr (n) c_{} = @{}\n", c, c)); }
+        format!("{} {{\n{}}}\n", q, body)
+    };
+    let mut stanzas: Vec<String> = C03_BIG_POOL.iter().enumerate().map(|(i, (q, caps))| probe(i, q, caps)).collect();
+    for i in (1..stanzas.len()).rev() { let j = rng.below(i + 1); stanzas.swap(i, j); }
+    let (q, caps) = *rng.pick(C03_BIG_SMALL);
+    let pos = rng.below(stanzas.len() + 1);
+    stanzas.insert(pos, probe(9, q, caps));
+    let k = 360 + rng.below(80);
+    let mut src = String::new();
+    for i in 0..k { src.push_str(&format!("m{}\n", i % 11)); }
+    src.push_str("def f(p, q):\n");
+    for i in 0..k { src.push_str(&format!("    y{}\n", i % 7)); }
+    src.push_str("    g(");
+    for i in 0..k { src.push_str(&format!("a{}, ", i % 9)); }
+    src.push_str("7)\n    pass\npass\n");
+    ExecInput { dsl: stanzas.join("\n"), src, supplied: vec![] }
+}
+pub fn c03_big_case(inp: &ExecInput) -> Option<Case> {
+    let file = load(&inp.dsl).ok()?;
+    let tree = parse_python(&inp.src);
+    let info = TreeInfo::new(&tree, &inp.src);
+    let (mut code, mut what) = (0u32, String::new());
+    // raw matches of every stanza's own query (the reference: what tree-sitter reports for that stanza's pattern)
+    let mut expect: Vec<String> = Vec::new();
+    for st in &file.stanzas {
+        let q = &st.query;
+        let mut cursor = tree_sitter::QueryCursor::new();
+        let mut it = cursor.matches(q, tree.root_node(), info.src.as_bytes());
+        while let Some(m) = it.next() {
+            let full = m.nodes_for_capture_index(st.full_match_stanza_capture_index as u32).next().map(|n| info.ids[&n.id()]).unwrap_or(usize::MAX);
+            let mut caps: Vec<String> = q.capture_names().iter().enumerate().filter(|(i, _)| *i != st.full_match_stanza_capture_index).map(|(i, name)| {
+                format!("{}:{:?}:{:?}", name, q.capture_quantifiers(0)[i], m.nodes_for_capture_index(i as u32).map(|n| info.ids[&n.id()]).collect::<Vec<_>>())
+            }).collect();
+            caps.sort();
+            expect.push(format!("{:?}|{}|{}", st.range.start, full, caps.join(",")));
+        }
+    }
+    expect.sort();
+    let expected = expect.len();
+    let mut seen: Vec<String> = Vec::new();
+    let _ = file.try_visit_matches::<(), _>(&tree, info.src, true, |m| {
+        let full = info.ids.get(&m.full_capture().id()).copied().unwrap_or(usize::MAX);
+        let mut caps: Vec<String> = m.named_captures().map(|(name, q, nodes)| {
+            format!("{}:{:?}:{:?}", name, q, nodes.map(|n| info.ids.get(&n.id()).copied().unwrap_or(usize::MAX)).collect::<Vec<_>>())
+        }).collect();
+        caps.sort();
+        seen.push(format!("{:?}|{}|{}", m.query_location(), full, caps.join(",")));
+        Ok(())
+    });
+    seen.sort();
+    if seen != expect { code = 91; what = format!("try_visit_matches(lazy=true) reports {} matches, the stanza queries {} (or other captures)", seen.len(), expected); }
+    let s = execute_fresh(&file, &tree, &info, &inp.supplied, false, false);
+    let l = execute_fresh(&file, &tree, &info, &inp.supplied, true, false);
+    // block runs: every probe block creates exactly one graph node
+    let runs = |o: &Obs| -> Option<usize> { if let Obs::Ok(g) = o { Some(g.len()) } else { None } };
+    if code == 0 {
+        if runs(&s) != Some(expected) { code = 92; what = format!("strict mode ran {:?} blocks for {} raw matches", runs(&s), expected); }
+        else if runs(&l) != Some(expected) { code = 92; what = format!("lazy mode ran {:?} blocks for {} raw matches", runs(&l), expected); }
+        else if let (Obs::Ok(a), Obs::Ok(b)) = (&s, &l) { if let Iso::No = isomorphic(a, b) { code = 92; what = "strict and lazy graphs differ".into(); } }
+    }
+    let mut replay = input_json(inp);
+    replay["stream"] = json!("C03");
+    replay["big"] = json!(true);
+    replay["impl"] = json!({"direct": what, "raw_matches": expected, "strict_blocks": runs(&s), "lazy_blocks": runs(&l)});
+    let tags = vec!["big".to_string(), format!("stanzas:{}", file.stanzas.len()), format!("raw_matches:{}", if expected > 1024 { ">1024" } else { "<=1024" })];
+    Some(Case { verdict: code.to_string(), detail: String::new(), key: fnv(&format!("{}|{}", inp.dsl, inp.src)), nontrivial: expected > 1024, tags, replay })
+}
 pub fn c03_gen(rng: &mut Rng, n: usize) -> Vec<Case> {
     quiet_panics();
     let mut out = Vec::new();
     let mut tries = 0;
+    // a few large direct-only cases first
+    let big = if n >= 100 { 1 + n / 700 } else { 0 };
+    while out.len() < big && tries < big * 5 { tries += 1; let inp = c03_big_input(rng); if let Some(c) = c03_big_case(&inp) { out.push(c); } }
+    tries = 0;
     while out.len() < n && tries < n * 20 { tries += 1; let inp = c03_input(rng); if let Some(c) = c03_case(&inp) { out.push(c); } }
     out
 }
-pub fn c03_replay(j: &serde_json::Value) -> Case { quiet_panics(); c03_case(&input_from_json(j)).expect("replay loads") }
+pub fn c03_replay(j: &serde_json::Value) -> Case {
+    quiet_panics();
+    if j["big"].as_bool() == Some(true) { return c03_big_case(&input_from_json(j)).expect("replay loads"); }
+    c03_case(&input_from_json(j)).expect("replay loads")
+}
 
 // C04: programs built from scoped-variable idioms
 pub fn c04_input(rng: &mut Rng) -> ExecInput { c04_input_mode(rng, false) }
@@ -909,7 +1019,16 @@ fn run_with_watchdog<F: FnOnce() -> Obs + Send + 'static>(f: F, secs: u64) -> Op
 }
 
 pub fn c05x_case(inp: &ExecInput, lazy: bool) -> Option<Case> {
-    let file = load(&inp.dsl).ok()?;
+    let file = match load(&inp.dsl) {
+        Ok(f) => f,
+        Err(e) if e == "PANIC" => {
+            // loading itself panicked: reported as a case of its own (no model evaluation needed)
+            let mut replay = input_json(inp);
+            replay["impl"] = json!({"load": "PANIC"});
+            return Some(Case { verdict: "62".to_string(), detail: "0".into(), key: fnv(&inp.dsl), nontrivial: true, tags: vec!["load:panic".into()], replay });
+        }
+        Err(_) => return None,
+    };
     let tree = parse_python(&inp.src);
     let info = TreeInfo::new(&tree, &inp.src);
     // the run under a watchdog (own thread, 64 MiB stack): a hang is reported, not waited for
@@ -959,6 +1078,9 @@ pub fn relayout(rng: &mut Rng, dsl: &str) -> String {
     for (i, l) in lines.iter().enumerate() {
         let mut line = l.to_string();
         if rng.chance(40) { line = line.replace("\"s0\"", "\"ééé\"").replace("\"s1\"", "\"日本\"").replace("\"lit\"", "\"é日é\"").replace("\"x\"", "\"ñ\""); }
+        if l.trim_start().starts_with("node @") && l.contains('.') && rng.chance(40) {
+            line = line.replacen(".", *rng.pick(&[". ", ".  ", ". ; c\n      "]), 1);
+        }
         let stmt_line = l.starts_with("  ") && !l.trim_start().starts_with('}');
         let next_stmt = lines.get(i + 1).map(|n| n.starts_with("  ") && !n.trim_start().starts_with('}') && !n.trim_start().starts_with('"')).unwrap_or(false);
         if stmt_line && rng.chance(15) { line = line.replacen("  ", "\t", 1); }
